@@ -396,7 +396,7 @@ pub mod thread {
 
 pub mod sync {
     use super::*;
-    pub use std::sync::{mpsc, Arc, Barrier, LazyLock, LockResult, Once, OnceLock, PoisonError, TryLockError, TryLockResult, Weak};
+    pub use std::sync::{mpsc, Arc, Barrier, LazyLock, LockResult, Once, PoisonError, TryLockError, TryLockResult, Weak};
 
     static NEXT_MUTEX_ID: std::sync::atomic::AtomicUsize = std::sync::atomic::AtomicUsize::new(1);
 
@@ -574,6 +574,49 @@ pub mod sync {
     impl<T> std::ops::DerefMut for MutexGuard<'_, T> {
         fn deref_mut(&mut self) -> &mut T {
             self.inner.as_mut().unwrap()
+        }
+    }
+
+    /// `std::sync::OnceLock` whose reads and initialisations are scheduling points: "looked empty,
+    /// then somebody else filled it" is an interleaving the scheduler can choose.  The closure of
+    /// `get_or_init` still runs at most once, as in std.
+    pub struct OnceLock<T> {
+        inner: std::sync::OnceLock<T>,
+    }
+    impl<T> OnceLock<T> {
+        pub const fn new() -> Self {
+            OnceLock { inner: std::sync::OnceLock::new() }
+        }
+        pub fn get(&self) -> Option<&T> {
+            point(4);
+            self.inner.get()
+        }
+        pub fn get_mut(&mut self) -> Option<&mut T> {
+            self.inner.get_mut()
+        }
+        pub fn set(&self, value: T) -> Result<(), T> {
+            point(5);
+            self.inner.set(value)
+        }
+        pub fn get_or_init<F: FnOnce() -> T>(&self, f: F) -> &T {
+            point(5);
+            self.inner.get_or_init(f)
+        }
+        pub fn into_inner(self) -> Option<T> {
+            self.inner.into_inner()
+        }
+        pub fn take(&mut self) -> Option<T> {
+            self.inner.take()
+        }
+    }
+    impl<T> Default for OnceLock<T> {
+        fn default() -> Self {
+            OnceLock::new()
+        }
+    }
+    impl<T: std::fmt::Debug> std::fmt::Debug for OnceLock<T> {
+        fn fmt(&self, f: &mut std::fmt::Formatter<'_>) -> std::fmt::Result {
+            write!(f, "{:?}", self.inner)
         }
     }
 
